@@ -105,3 +105,34 @@ Proof.
   split; [apply wf_ts_example|]. split; [reflexivity|]. split; [apply K_of_forallb; vm_compute; reflexivity|].
   repeat split; vm_compute; reflexivity.
 Qed.
+
+(* ---- the deps shape: a dep regenerates one of the task's sources from spec.txt before the check ---- *)
+Definition w_dep : task :=
+  {| t_name := "build"; t_label := None; t_method := Checksum;
+     t_sources := [(false, "src/**/*.txt")]; t_generates := [];
+     t_status := []; t_prompt := false; t_dir := ""; t_ncmds := 2; t_outputs := [];
+     t_dep := Some ("spec.txt", "src/g.txt"); t_subguard := None |}.
+Definition w_init_spec : state := with_fs w_init (fs_set "spec.txt" {| f_content := "S1"; f_mtime := 4 |} (fs w_init)).
+Definition h_dep : list event :=
+  [(10, Invoke Run 0 AllOk); (12, Invoke Run 0 AllOk); (14, Write "spec.txt" "S2");
+   (16, Invoke Run 0 (FailAt 0)); (18, Invoke Run 0 (KilledAt 1)); (20, Invoke Run 0 AllOk); (22, Invoke Run 0 AllOk)]%N.
+
+Lemma wf_csc_dep : wf_csc_proj [w_dep].
+Proof.
+  split.
+  - intros [|tid] t E; cbn in E; inversion E; subst.
+    + split; [reflexivity | discriminate].
+    + destruct tid; discriminate.
+  - intros [|i] [|j] ti tj Ei Ej _; cbn in Ei, Ej; try reflexivity;
+      try (destruct i; discriminate); try (destruct j; discriminate).
+Qed.
+
+Lemma cur_deps_example :
+  wf_csc_proj [w_dep] /\ cks w_init_spec = [] /\
+  nocoll_run gmatch idH hx1 current [w_dep] (fs w_init_spec) []
+             (observe gmatch idH hx1 current [w_dep] w_init_spec h_dep) = true /\
+  nocoll5_run gmatch idH hx1 current [w_dep] (fs w_init_spec) []
+             (observe gmatch idH hx1 current [w_dep] w_init_spec h_dep) = true /\
+  map o_res (observe gmatch idH hx1 current [w_dep] w_init_spec h_dep)
+  = [ROk; RSkipped; RFile; RFailed; RKilled; ROk; RSkipped].
+Proof. split; [apply wf_csc_dep|]. repeat split; vm_compute; reflexivity. Qed.
